@@ -3,6 +3,9 @@
 package core
 
 import (
+	"net/http"
+
+	"github.com/linkedin/Burrow/core/internal/httpserver"
 	"github.com/linkedin/Burrow/core/protocol"
 )
 
@@ -22,4 +25,27 @@ func VerifConfigure(app *protocol.ApplicationContext) (valid bool, escaped inter
 	coordinators := newCoordinators(app)
 	configureCoordinators(app, coordinators)
 	return app.ConfigurationValid, nil
+}
+
+// VerifConfigureHTTP runs the configuration phase of Start (newCoordinators + configureCoordinators: every coordinator's
+// real Configure, in Start's order) on the configuration currently loaded in viper, keeping the application's channels,
+// and returns what the HTTP server's listener serves. valid is app.ConfigurationValid; handler is nil if the phase did
+// not get as far as the HTTP server or panicked (escaped).
+func VerifConfigureHTTP(app *protocol.ApplicationContext) (handler http.Handler, valid bool, escaped interface{}) {
+	defer func() {
+		if r := recover(); r != nil {
+			handler, valid, escaped = nil, false, r
+		}
+	}()
+	coordinators := newCoordinators(app)
+	configureCoordinators(app, coordinators)
+	if !app.ConfigurationValid {
+		return nil, false, nil
+	}
+	for _, c := range coordinators {
+		if hc, ok := c.(*httpserver.Coordinator); ok {
+			return hc.VerifListenerHandler(), true, nil
+		}
+	}
+	return nil, true, nil
 }
